@@ -53,6 +53,10 @@ type hostile struct {
 	// first, in the same burst (the object's mailbox is busy when the
 	// frames proper arrive)
 	prelude int
+	// mid: a frame written in the middle of the burst of repeated frames
+	// (after midAt of them)
+	mid   *hostile
+	midAt int
 }
 
 // childPlaceholder stands for the identifier of the second object (known
@@ -102,6 +106,10 @@ func alphabet() []hostile {
 		{name: "unknown-object", typ: net.Call, svc: 1, obj: 999, act: 100, pay: fx.Int32(1)},
 		{name: "unknown-service", typ: net.Call, svc: 9, obj: 1, act: 100, pay: fx.Int32(1)},
 		{name: "12-calls-unread", typ: net.Call, svc: 1, obj: 1, act: 100, pay: fx.Int32(2), repeat: 12},
+		{name: "45-posts-with-a-register-among-them", typ: net.Post, svc: 1, obj: 1, act: 100, pay: fx.Int32(2), repeat: 44,
+			mid: &hostile{typ: net.Call, svc: 1, obj: 1, act: 0, pay: regPayload(1, 105, 79)}, midAt: 14},
+		{name: "45-events-and-replies", typ: net.Event, svc: 1, obj: 1, act: 105, pay: fx.Int32(2), repeat: 44,
+			mid: &hostile{typ: net.Reply, svc: 1, obj: 1, act: 100, pay: fx.Int32(1)}, midAt: 20},
 		{name: "terminate(second-object)x2", typ: net.Call, svc: 1, obj: childPlaceholder, act: 3, repeat: 1},
 		{name: "6-calls+terminate(second-object)x2", typ: net.Call, svc: 1, obj: childPlaceholder, act: 3, repeat: 1, prelude: 6},
 		{name: "half-frame-then-close", raw: []byte{0x42, 0xde, 0xad, 0x42, 1, 0, 0, 0, 40, 0, 0}, close: true},
@@ -173,6 +181,9 @@ func body(n int, bounded bool, custom ...func() []hostile) func() {
 					h.Send(net.Call, f.svc, obj, 2, h.NextID(), u32(obj))
 				}
 				for r := 0; r <= f.repeat; r++ {
+					if f.mid != nil && r == f.midAt {
+						h.Send(f.mid.typ, f.mid.svc, f.mid.obj, f.mid.act, h.NextID(), f.mid.pay)
+					}
 					if h.Send(f.typ, f.svc, obj, f.act, h.NextID(), pay) != nil {
 						break
 					}
